@@ -1,5 +1,7 @@
 use crate::Fields;
 
+pub mod codec3;
+pub mod codec5;
 pub mod topic;
 
 pub type Engine = fn(&Fields) -> Fields;
@@ -7,7 +9,7 @@ pub type Engine = fn(&Fields) -> Fields;
 pub fn lookup(name: &str) -> Option<Engine> {
     match name {
         "topic" => Some(topic::run),
-        _ => None,
+        _ => codec3::lookup(name).or_else(|| codec5::lookup(name)),
     }
 }
 
